@@ -1,6 +1,7 @@
 """C17 -- conversions are mutually inverse and scale right."""
 import math, itertools
 import numpy
+import warnings
 from common import hexf, flist, run_cases
 import aotools
 from aotools.turbulence import atmos_conversions as ac
@@ -181,6 +182,17 @@ def property_checks(inp):
     # a static offset per sub-aperture does not change the variance
     slopes = slopes + numpy.sqrt(var) * numpy.array(inp["offsets"])[None, :inp["nsub"], None]
     A(("r0_from_slopes(slope variance of r0) = r0", _rel(ac.r0_from_slopes(slopes, w, d), r0), 1e-9))
+    # slope buffers with flagged frames (numpy.ma): the variance is that of the unmasked frames, glitches behind the mask do not count
+    nfr_ = slopes.shape[-1]
+    glitch = slopes.copy(); glitch[..., 1] = 1e6 * numpy.sqrt(var); glitch[..., nfr_ - 1] = numpy.nan
+    mk_ = numpy.zeros(glitch.shape, dtype=bool); mk_[..., 1] = True; mk_[..., nfr_ - 1] = True
+    if nfr_ >= 6:
+        keep_ = numpy.ones(nfr_, dtype=bool); keep_[1] = False; keep_[nfr_ - 1] = False
+        want_m = ac.r0_from_slopes(slopes[..., keep_], w, d)
+        with warnings.catch_warnings():
+            warnings.simplefilter("ignore")
+            got_m = ac.r0_from_slopes(numpy.ma.masked_array(glitch, mask=mk_), w, d)
+        A(("r0_from_slopes of a masked slope buffer = that of the unmasked frames", _rel(float(got_m), float(want_m)) if numpy.isfinite(float(got_m)) else float("inf"), 1e-9))
     A(("slope variance ~ r0^(-5/3)", _rel(ac.slope_variance_from_r0(s * r0, w, d), s ** (-5. / 3) * var), 1e-9))
     # single layer
     v = inp["v"]; h = inp["h"]
